@@ -53,15 +53,17 @@ class Collect(Job):
     prop = "C06"
     max_paths = 6000
 
-    def __init__(self, n, order, streams=1, tests=1, axes=True, canary=None, readonly=False):
+    def __init__(self, n, order, streams=1, tests=1, axes=True, canary=None, readonly=False, testsets=None):
         """n rows; `order`: tuple giving the arrival order of the contexts (a permutation of range(k))"""
         self.n, self.order, self.k, self.streams, self.tests, self.canary = n, tuple(order), len(order), streams, tests, canary
         # axes: True (all four supplied), False (none) or the names of those the stream supplies ("tinp", "zinp", "lat", "lon")
         self.axes = ("tinp", "zinp", "lat", "lon") if axes is True else (() if axes is False else tuple(axes))
         self.readonly = readonly
+        # testsets[c]: the tests (indices, in result order) context c ran - contexts of one stream need not list the same tests
+        self.testsets = testsets
         axlab = "present" if len(self.axes) == 4 else ("absent" if not self.axes else "only:" + "+".join(self.axes))
         self.name = (f"collect n={n} contexts={self.k} order={''.join(map(str, order))} streams={streams} tests={tests} "
-                     f"axes={axlab}{' readonly' if readonly else ''}") + (f" CANARY={canary}" if canary else "")
+                     f"axes={axlab}{' readonly' if readonly else ''}{' testsets=' + str(testsets) if testsets else ''}") + (f" CANARY={canary}" if canary else "")
         if canary:
             self.expect_canary_sat = True
             self.validate_witnesses = False
@@ -100,7 +102,7 @@ class Collect(Job):
             for s in range(self.streams):
                 calls = [R.CallResult(package="qartod", test=names[q], function=funcs[q],
                                       results=K.iarray([S.flag[s][q][c][r] for r in rows], "uint8"))
-                         for q in range(self.tests)]
+                         for q in (self.testsets[c] if self.testsets else range(self.tests))]
                 kw = dict(tinp=K.tarray([S.t[r] for r in rows] if "tinp" in self.axes else []),
                           zinp=K.farray([S.z[r] for r in rows] if "zinp" in self.axes else []),
                           lat=K.farray([S.lat[r] for r in rows] if "lat" in self.axes else []),
@@ -180,6 +182,8 @@ class Collect(Job):
             for q in range(self.tests):
                 for r in range(n):
                     c = owner[r]
+                    if c >= 0 and self.testsets and q not in self.testsets[c]:
+                        c = -1          # this test did not run in the context that covers the row
                     lab = f"list:s{s}:{names[q]}:results[{r}]"
                     if lab not in items:
                         obl.append((f"{lab} exists (one entry per input row)", FALSE))
@@ -242,6 +246,10 @@ def jobs(tier):
     out.append(Collect(n, (0, 1), 1, 1, False))
     out.append(Collect(0, (0,), 1, 1, True))
     out.append(Collect(3, (0, 1), 1, 1, True, readonly=True))
+    # contexts of one stream that list different tests, in either arrival order
+    for order in ((0, 1), (1, 0)):
+        out.append(Collect(2, order, 1, 2, True, testsets=((0,), (1, 0))))
+    out.append(Collect(2, (0, 1), 1, 2, True, testsets=((0, 1), (1,))))
     out.append(Collect(2, (1, 0), 1, 2, False, readonly=True))
     out.append(Collect(1, (0, 1), 1, 1, True))
     # streams that supply only some of the axes (the others are empty placeholders)
